@@ -195,7 +195,7 @@ def run(ctx, known, built):
             for c in excuse[:1]:
                 ctx.known_hits[c] = ctx.known_hits.get(c, 0) + 1
             continue
-        rep["demand"] = "parse_raw(encode_xml_with_options(g, o)) equals g (numbers within 1e-9 relative, colours to 3 decimals)"
+        rep["demand"] = "parse_raw(encode_xml_with_options(g, o)) equals g without its point-less contours (numbers within 1e-9 relative, colours to 3 decimals)"
         ctx.violations.append(rep)
     # ---- options must not matter: consecutive rows 2k, 2k+1 are the same glyph under two option sets
     byid = {r["id"]: r for r in rows if r["id"] >= 0}
@@ -228,7 +228,7 @@ def run(ctx, known, built):
                 else:
                     exp = None
                 r["_tree"] = tree if r["enc"] == "Ok" else None
-                flags = [int("F3" in r["classes"]), int("empty-contour" in r["classes"])]
+                flags = [int("F3" in r["classes"])]
                 items.append((r["case"], packed([tree]) if r["enc"] == "Ok" else packed([[7]]), r["reparse"], flags))
             f.write(";\n".join("(%s,%s)" % (c, packed_pair(t, rp, fl)) for (c, t, rp, fl) in items))
             f.write("].\nEval vm_compute in mismatches_packed run_c02 cases.\n")
@@ -275,7 +275,7 @@ def run(ctx, known, built):
         ctx.samples.append({"options": r["opts"], "verdict": r["verdict"], "glif": bytes.fromhex(r["bytes"]).decode("utf-8", "replace")[:500]})
 
 
-def packed_pair(tree_packed, reparse_packed, flags=(0, 0)):
+def packed_pair(tree_packed, reparse_packed, flags=(0,)):
     """expected dump = L_[tree; reparse]: both parts are already packed streams; re-pack as one list"""
     def unpack(s):
         ints = [int(x) for x in s.strip("[]").split(";")]
